@@ -28,7 +28,7 @@ From Coq Require Import NArith ZArith String.
 From EKW Require Import Sched.Model.
 Local Open Scope N_scope.
 
-Definition cid := nat.                      (* index into State.components *)
+Notation cid := nat (only parsing).          (* index into State.components *)
 
 Record comp := {
   c_nodes : gset task;                      (* core.nodes *)
